@@ -1,5 +1,6 @@
 import PsaDhcp.Model.Client
 import PsaDhcp.Model.Sanitize
+import PsaDhcp.Model.Automaton
 import Driver.Util
 import Driver.Codec
 /-
@@ -76,5 +77,57 @@ def cliCmd (cmd : String) (a : Args) : Option String :=
       | none => "untouched"
       | some f => "ok " ++ hex f)
   | _ => none
+
+end Driver
+
+namespace Driver
+open PsaDhcp
+
+def ifcCompact (c : Ifconfig) : String :=
+  s!"{ipStr c.ip}/{ipStr c.netmask}/{ipStr c.router}/{c.mtu}/{ipsStr c.dns}/{hex c.domain}/{c.leaseSecs}"
+
+def reqStateStr : ReqState → String
+  | .discover => "discover" | .selecting => "selecting" | .renewing => "renewing" | .rebinding => "rebinding"
+
+/-- Effects as the harness can observe them: callbacks / frames / probes / deadlines in one log,
+the libif operations in a second one (waits are not observable and not rendered). -/
+def effStr : Eff → Option String
+  | .preNil => some "preNil" | .postNil => some "postNil"
+  | .send st off srv => some s!"send:{reqStateStr st}:{ipStr off}:{ipStr srv}"
+  | .arpProbe ip => some s!"arp:{ipStr ip}"
+  | .pre c => some s!"pre:{ifcCompact c}" | .post c => some s!"post:{ifcCompact c}"
+  | .deadlines d => some s!"dl:{d.t1}:{d.t2}:{d.tx}"
+  | .fatalRoutersEmpty => some "fatal"
+  | _ => none
+
+def libifStr : Eff → Option String
+  | .unconfigure => some "unconf" | .panicUnconfigure => some "unconf" | .up => some "up"
+  | .setIface c => some s!"setiface:{ifcCompact c}"
+  | _ => none
+
+def parseCEv (s : String) : Option CEv :=
+  match s.splitOn ":" with
+  | ["A", h] => do
+    let b ← unhex h
+    match decode b with
+    | .ok m => some (.accepted m (decodeOptions m.options))
+    | .error _ => none
+  | ["N"] => some .nack
+  | ["D"] => some .deadline
+  | ["P", "-"] => some (.arp none)
+  | ["P", m] => do pure (.arp (some (← unhex m)))
+  | ["I", "1"] => some (.ifaceResult true)
+  | ["I", "0"] => some (.ifaceResult false)
+  | ["T"] => some .t1
+  | ["L"] => some .linkUp
+  | _ => none
+
+def autoCmd (a : Args) : Option String := do
+  let mac ← a.hex? "mac"
+  let route ← a.nat? "route"
+  let evs ← (a.get? "evs").bind fun s => if s = "-" then some [] else (s.splitOn ";").mapM parseCEv
+  let r := crun mac (route = 1) cinit.1 evs
+  let all := cinit.2 ++ r.2
+  pure ("ok " ++ String.intercalate "," (all.filterMap effStr) ++ " | " ++ String.intercalate "," (all.filterMap libifStr))
 
 end Driver
